@@ -419,7 +419,7 @@ func mClassify(lex []string) (string, []*mnode, string) {
 			}
 			return "malformed", nil, "mismatched brace counts"
 		}
-		isName := func(s string) bool { return s == "a" || s == "b" || s == "x" }
+		isName := func(s string) bool { return s == "a" || s == "b" || s == "x" || s == "y" }
 		var t tag
 		switch {
 		case len(inner) >= 1 && inner[0] == "!":
@@ -501,6 +501,71 @@ func mClassify(lex []string) (string, []*mnode, string) {
 	return "well-formed", root, ""
 }
 
+// mLexemesOf converts an AST into the lexeme vocabulary of the accept/reject check.
+func mLexemesOf(nodes []*mnode, out *[]string) {
+	for _, n := range nodes {
+		sp := n.spelling % mSpellings
+		ob, cb := "{{", "}}"
+		if (sp/6)%2 == 1 {
+			ob, cb = "{{{", "}}}"
+		}
+		name := strings.ToLower(n.name)
+		switch n.kind {
+		case "text":
+			*out = append(*out, "x")
+		case "var":
+			*out = append(*out, "{{", name, "}}")
+		case "esc":
+			*out = append(*out, "{{{", name, "}}}")
+		case "comment":
+			*out = append(*out, ob, "!", "y", cb)
+		case "sec", "inv":
+			*out = append(*out, ob)
+			switch {
+			case n.kind == "sec" && sp%2 == 0:
+				*out = append(*out, "#", name)
+			case n.kind == "sec":
+				*out = append(*out, "#", "if", name)
+			case sp%2 == 0:
+				*out = append(*out, "^", name)
+			default:
+				*out = append(*out, "#", "unless", name)
+			}
+			*out = append(*out, cb)
+			mLexemesOf(n.body, out)
+			*out = append(*out, ob, "/", []string{name, "if", "unless"}[(sp/2)%3], cb)
+		}
+	}
+}
+
+func c10Edits(c *fw.Ctx, base []string) {
+	c10AcceptReject(c, base)
+	cp := func(x []string) []string { return append([]string{}, x...) }
+	for i := 0; i <= len(base); i++ {
+		for _, v := range mLexemes {
+			c10AcceptReject(c, append(append(cp(base[:i]), v), base[i:]...))
+		}
+	}
+	for i := range base {
+		if len(base) > 1 {
+			c10AcceptReject(c, append(cp(base[:i]), base[i+1:]...))
+		}
+		for _, v := range mLexemes {
+			if v != base[i] {
+				e := cp(base)
+				e[i] = v
+				c10AcceptReject(c, e)
+			}
+		}
+		c10AcceptReject(c, append(append(cp(base[:i+1]), base[i]), base[i+1:]...))
+		if i+1 < len(base) {
+			e := cp(base)
+			e[i], e[i+1] = e[i+1], e[i]
+			c10AcceptReject(c, e)
+		}
+	}
+}
+
 func c10AcceptReject(c *fw.Ctx, lex []string) {
 	text := strings.Join(lex, " ")
 	verdict, ast, reason := mClassify(lex)
@@ -556,14 +621,16 @@ func init() {
 		ID:    "C10",
 		Level: "model_checking",
 		Rule: "(semantics) every template AST that is a sequence of <=2 (thorough 3) nodes over 11 leaves (texts incl. '}', non-ASCII, blanks; variables and escaped variables a/B; comments) and sections/inverted sections of a/B with bodies of <=2 nodes (thorough: bodies may contain inner sections), printed with rotating spellings (#n/#if n, ^n/#unless n, closed by name, /if or /unless, double/triple braces, inner blanks) plus a dedicated sweep of all 24 spellings, rendered under 16 variable maps (absent/empty/plain/escapable values, keys in either letter case) against a reference renderer; every value of length<=3 (thorough 5) over the 8 escapable characters plus an ASCII and a non-ASCII letter in plain and escaped variables; " +
-			"(accept/reject) every sequence up to the length bound over 13 template lexemes joined by blanks, classified by a three-valued reference recogniser as well-formed (must be accepted and render per reference), malformed for a listed reason (must be rejected with an error code) or unspecified; non-trivial = templates with sections / classified sequences",
+			"(accept/reject) every sequence up to the length bound over 13 template lexemes joined by blanks, classified by a three-valued reference recogniser as well-formed (must be accepted and render per reference), malformed for a listed reason (must be rejected with an error code) or unspecified; the same oracle on the complete single-lexeme edit neighbourhood (insert/delete/replace by any lexeme, swap, duplicate) of well-formed templates with sections nested to depth 3; non-trivial = templates with sections / classified sequences",
 		Assume: []string{"printer constraints keep lexing unambiguous (no '{{' in text, text before a tag does not end in '{', text after a tag does not start with '}', no blanks at the template's ends)", "degenerate tags ({{#if}}, {{a b}}, {{}}, ...) are unspecified"},
 		Spaces: func(tier string) []fw.Space {
 			alts := mAlternatives(2)
 			topLen := 2
 			lexLen := 5
 			escLen := 3
+			editStep := int64(16)
 			if tier == "thorough" {
+				editStep = 1
 				topLen = 3
 				lexLen = 6
 				escLen = 5
@@ -600,6 +667,15 @@ func init() {
 					var sb strings.Builder
 					mPrint([]*mnode{nested[i](int(i))}, &sb)
 					return fmt.Sprintf("template %q", sb.String())
+				}},
+				{Name: "lexeme-edit-neighbourhood", N: int64(len(nested)) / editStep, Timeout: 300e9, Run: func(c *fw.Ctx, i int64) {
+					lex := []string{}
+					mLexemesOf([]*mnode{nested[i*editStep](int(i))}, &lex)
+					c10Edits(c, lex)
+				}, Repr: func(i int64) string {
+					lex := []string{}
+					mLexemesOf([]*mnode{nested[i*editStep](int(i))}, &lex)
+					return fmt.Sprintf("all single-lexeme edits of template %q", strings.Join(lex, " "))
 				}},
 				{Name: "lexeme-sequences", N: nL, Run: func(c *fw.Ctx, i int64) { c10AcceptReject(c, lexemesByIndex(mLexemes, skipL+i)) },
 					Repr: func(i int64) string { return fmt.Sprintf("template %q", strings.Join(lexemesByIndex(mLexemes, skipL+i), " ")) }},
